@@ -132,13 +132,15 @@ type mapSpec struct {
 	L     int    `json:"l"` // listen client index (0 = client id 0)
 	T     int    `json:"t"` // target client index
 	Proto string `json:"proto"`
+	Exp   bool   `json:"exp"` // ExpiresAt lies in the past (the cleanup task has not run yet)
 }
 type codeSpec struct {
 	T   int `json:"t"`   // owner (target client) index
 	Act int `json:"act"` // activated by client index (0 = not activated)
 }
 type domSpec struct {
-	C int `json:"c"`
+	C   int  `json:"c"`
+	Exp bool `json:"exp"` // ExpiresAt lies in the past
 }
 type stepSpec struct {
 	Conn  string `json:"conn"` // unknown | fresh | pending | auth
@@ -321,6 +323,10 @@ func newWorld(c *caseIn) (*world, error) {
 			ListenAddress: fmt.Sprintf("0.0.0.0:%d", 18000+len(w.mapIDs)), TargetAddress: "tcp://127.0.0.1:8080",
 			Status: models.MappingStatusActive, Type: models.MappingTypeAnonymous,
 		}
+		if m.Exp {
+			past := time.Now().Add(-time.Hour)
+			pm.ExpiresAt = &past
+		}
 		created, err := fx.Cloud.CreatePortMapping(pm)
 		if err != nil {
 			return w, fmt.Errorf("CreatePortMapping: %v", err)
@@ -353,6 +359,12 @@ func newWorld(c *caseIn) (*world, error) {
 		hm, err := fx.HTTPDomainRepo.CreateMapping(ctx, w.clientID[d.C], fmt.Sprintf("seed%d", i), "tunnox.net", "127.0.0.1", 3000+i)
 		if err != nil {
 			return w, fmt.Errorf("HTTPDomainRepo.CreateMapping: %v", err)
+		}
+		if d.Exp {
+			hm.ExpiresAt = time.Now().Unix() - 3600
+			if err := fx.HTTPDomainRepo.UpdateMapping(ctx, hm); err != nil {
+				return w, fmt.Errorf("HTTPDomainRepo.UpdateMapping (expire): %v", err)
+			}
 		}
 		w.domIdx[hm.ID] = len(w.domIDs)
 		w.domIDs = append(w.domIDs, hm.ID)
@@ -1167,6 +1179,9 @@ func runCase(raw json.RawMessage) interface{} {
 	}
 	if c.Mode == "pending" {
 		return runPending(raw)
+	}
+	if c.Mode == "race" {
+		return runRace(raw)
 	}
 	out := &caseOut{PropOK: true, Steps: []stepOut{}}
 	w, err := newWorld(&c)
